@@ -58,8 +58,18 @@ def dg(x):
     return h.hexdigest()
 
 
-def build(kind, alg, N, t=None, timed=False):
+NFORMS = {"int": int, "int64": np.int64, "int32": np.int32, "0d_array": lambda n: np.asarray(n), "squeezed": lambda n: np.squeeze(np.array([n]))}
+
+
+def small_getters(kind):
+    """grids with fewer than four points have no tessellation; their points and their equal-share volumes are still functions of (alg, N)"""
+    return ("grid", "areas") if kind == "3d" else ("grid", "grid_full", "volumes")
+
+
+def build(kind, alg, N, t=None, timed=False, nform="int"):
     kw = {"time_generation": True} if timed else {}   # a legal factory option that must not change the result
+    if kind in ("3d", "4d"):
+        N = NFORMS[nform](N)                          # the number of points in the integer types a caller may hold it in
     if kind == "3d":
         from molgri.space.rotobj import SphereGrid3DFactory
         return SphereGrid3DFactory.create(alg_name=alg, N=N, **kw)
@@ -110,12 +120,14 @@ def golden_main(spec_path, out_path):
     for kind, alg, N, t in specs:
         key = json.dumps([kind, alg, N, t])
         try:
-            if kind == "4d" and N < 4 or kind == "3d" and N < 4:
-                gs = ("grid",) if kind == "3d" else ("grid", "grid_full")
-            else:
-                gs = getters(kind)
+            gs = small_getters(kind) if kind in ("3d", "4d") and N < 4 else getters(kind)
             obj = build(kind, alg, N, t)
-            out[key] = {g: dg(call(kind, obj, g)) for g in gs}
+            out[key] = {}
+            for g in gs:
+                try:
+                    out[key][g] = dg(call(kind, obj, g))
+                except Exception:
+                    pass          # no golden for this getter: the history run skips it
         except Exception as e:
             out[key] = {"__error__": repr(e)}
     import molgri
@@ -221,13 +233,19 @@ def make_history(rng, tier):
             if alg in ("ico", "cube3D", "cube4D") and rng.random() < 0.3:
                 big = N + rng.randint(1, 30 if POLY[alg] == "3d" else 8)
                 ops.append(["construct_discard", POLY[alg], alg, big, None])
-            ops.append(["construct", kind, alg, N, t] + (["timed"] if kind in ("3d", "4d") and rng.random() < 0.25 else []))
+            ops.append(["construct", kind, alg, N, t] + (["timed"] if kind in ("3d", "4d") and rng.random() < 0.25 else [])
+                       + (["nform=" + rng.choice(["int64", "int32", "0d_array", "squeezed"])] if kind in ("3d", "4d") and rng.random() < 0.4 else []))
             objs.append((kind, alg, N, t))
         elif r < 0.7:
             k = rng.randrange(len(objs))
             kind, alg, N, t = objs[k]
             small = (kind in ("3d", "4d") and N < 4)
-            gs = (("grid",) if kind == "3d" else ("grid", "grid_full")) if small else getters(kind)
+            gs = small_getters(kind) if small else getters(kind)
+            if kind in ("3d", "4d") and not small and rng.random() < 0.2:
+                # a history element only: one of the matrix getters with non-default options; the default answers asked for later (on this
+                # and on every other object) must not have moved
+                ops.append(["get_nondefault", k, rng.choice(["adjacency", "borders", "distances"]),
+                            {"only_upper": rng.random() < 0.5, "include_opposing_neighbours": rng.random() < 0.5}])
             ops.append(["get", k, rng.choice(gs)])
         elif r < 0.74:
             ops.append(["scramble", rng.randrange(len(objs))])   # hostile caller: modifies the last object this grid handed out, in place
@@ -252,7 +270,8 @@ def run_history(REC, ops, golden):
         try:
             if op[0] in ("construct", "construct_discard"):
                 _, kind, alg, N, t = op[:5]
-                obj = build(kind, alg, N, t, timed=(len(op) > 5))
+                nform = ([x.split("=")[1] for x in op[5:] if str(x).startswith("nform=")] or ["int"])[0]
+                obj = build(kind, alg, N, t, timed=("timed" in op[5:]), nform=nform)
                 if op[0] == "construct":
                     live.append((kind, alg, N, t, obj))
                     nconstruct += 1
@@ -269,6 +288,13 @@ def run_history(REC, ops, golden):
                 else:
                     REC.check("C08.digest_equals_fresh_process", d == want[g],
                               {"object": [kind, alg, N, t], "getter": g, "digest": d, "fresh_process_digest": want[g]})
+            elif op[0] == "get_nondefault":
+                _, k, g, opts = op
+                obj = live[k][4]
+                try:
+                    {"adjacency": obj.get_voronoi_adjacency, "borders": obj.get_cell_borders, "distances": obj.get_center_distances}[g](**opts)
+                except Exception:
+                    pass   # its own outcome is not C08's business
             elif op[0] == "scramble":
                 res = last.get(op[1])
                 try:
@@ -321,6 +347,17 @@ def run_histories(spec):
                  ["get", 0, "full_distances"], ["seed", 7], ["get", 0, "full_prefactors"], ["get", 0, "full_adjacency"],
                  ["construct", "4d", "cube4D", 8, None], ["get", 1, "borders"], ["scramble", 1], ["get", 1, "borders"], ["get", 1, "distances"]]
         hist.append((fixed, [("full", "ico", 1, "cube4D_8|[0.1]"), ("4d", "cube4D", 8, None)]))
+    if spec["rseed"] % 1000 == 1:
+        # every run: the grids with fewer than four points, with N held in every integer form, all their getters
+        ops, objs = [], []
+        for alg, kind in POLY.items():
+            for N in (1, 2, 3):
+                for nform in ("int",) + tuple(k for k in NFORMS if k != "int"):
+                    ops.append(["construct", kind, alg, N, None, "nform=" + nform])
+                    objs.append((kind, alg, N, None))
+                    ops += [["get", len(objs) - 1, g] for g in small_getters(kind)]
+                ops.append(["draw", 2])
+        hist.append((ops, objs))
     needed = sorted({(k, a, N, t) for _, objs in hist for (k, a, N, t) in objs}, key=repr)
     golden = golden_for([list(x) for x in needed], spec["rseed"])
     import molgri
